@@ -29,7 +29,7 @@ func runGenKnown(repo string) int {
 			rel, _ := filepath.Rel(repo, filepath.Dir(path))
 			for _, d := range f.Decls {
 				if fd, ok := d.(*ast.FuncDecl); ok {
-					out = append(out, rel+" "+norm.FuncKey(fd)+"\t"+norm.ASTHash(fd))
+					out = append(out, rel+" "+norm.FuncKey(fd)+"\t"+norm.ASTHash(fd)+"\t"+strings.Join(norm.LibCalls(f, fd), ","))
 				}
 			}
 			return nil
@@ -39,11 +39,18 @@ func runGenKnown(repo string) int {
 	// one line per key, with every hash seen (build-tagged twins, several init functions)
 	var keys []string
 	hs := map[string][]string{}
+	libs := map[string]map[string]bool{}
 	for _, l := range out {
-		i := strings.Index(l, "\t")
-		k, h := l[:i], l[i+1:]
+		parts := strings.Split(l, "\t")
+		k, h := parts[0], parts[1]
 		if _, ok := hs[k]; !ok {
 			keys = append(keys, k)
+			libs[k] = map[string]bool{}
+		}
+		if len(parts) > 2 && parts[2] != "" {
+			for _, x := range strings.Split(parts[2], ",") {
+				libs[k][x] = true
+			}
 		}
 		dup := false
 		for _, x := range hs[k] {
@@ -56,7 +63,12 @@ func runGenKnown(repo string) int {
 		}
 	}
 	for _, k := range keys {
-		fmt.Println(k + "\t" + strings.Join(hs[k], ","))
+		var ls []string
+		for x := range libs[k] {
+			ls = append(ls, x)
+		}
+		sort.Strings(ls)
+		fmt.Println(k + "\t" + strings.Join(hs[k], ",") + "\t" + strings.Join(ls, ","))
 	}
 	return 0
 }
